@@ -586,3 +586,51 @@ theorem C15_components_eq_card (b : Bin) : components b true = Nat.card (Comps (
     | _ p =>
       obtain ⟨s, ⟨hs, hc⟩, _⟩ := huniq p.1 p.2
       exact ⟨⟨s, hs⟩, Quotient.sound hc⟩
+
+/-! ## Round 4 — the `mode` argument of `euler` -/
+
+/-- reading through `ignore` (an out-of-image element is skipped = contributes weight 0) is reading background outside -/
+theorem C15_getMode_ignore (b : C15.Bin) (y x : Int) : C15.getMode b .ignore y x = b.get y x := by
+  unfold C15.getMode fixOffset
+  by_cases hy : y < 0 ∨ y ≥ (b.rows : Int)
+  · have : b.get y x = false := by
+      unfold C15.Bin.get; rw [if_neg]; omega
+    simp [hy, this]
+  · by_cases hx : x < 0 ∨ x ≥ (b.cols : Int)
+    · have : b.get y x = false := by
+        unfold C15.Bin.get; rw [if_neg]; omega
+      simp [hy, hx, this]
+    · simp [hy, hx]
+
+/-- every mode reads the pixel itself inside the image -/
+theorem C15_getMode_inside (b : C15.Bin) (m : Mode) (y x : Int)
+    (hy : 0 ≤ y ∧ y < (b.rows : Int)) (hx : 0 ≤ x ∧ x < (b.cols : Int)) : C15.getMode b m y x = b.get y x := by
+  have h1 : ¬ y < 0 := by omega
+  have h2 : ¬ y ≥ (b.rows : Int) := by omega
+  have h3 : ¬ x < 0 := by omega
+  have h4 : ¬ x ≥ (b.cols : Int) := by omega
+  cases m <;> simp [C15.getMode, fixOffset, h1, h2, h3, h4]
+
+/-- **C15 (`euler`, the `mode` argument).** `eulerMode4` is the model of `euler(f, n, mode)` for all six border modes (compared
+with the real call for every mode by the check). The default `constant` is the padded sum `eulerModel4` the statement is about;
+`ignore` is the *unpadded* sum `eulerPinned4` (only the windows ending inside the image, background outside) — the quantity
+the pinned code computed in the default mode too (defect #23) — and for every mode the value only depends on reads of row /
+column `-1` through `fixOffset`: inside the image all modes read the pixel itself. -/
+theorem C15_euler_mode (b : C15.Bin) (conn8 : Bool) :
+    C15.eulerMode4 b conn8 .constant = C15.eulerModel4 b conn8 ∧
+    C15.eulerMode4 b conn8 .ignore = C15.eulerPinned4 b conn8 := by
+  refine ⟨rfl, ?_⟩
+  have hq : ∀ y x, C15.quadCodeMode b .ignore y x = C15.quadCode b y x := by
+    intro y x
+    unfold C15.quadCodeMode C15.quadCode
+    simp only [C15_getMode_ignore]
+  simp only [C15.eulerMode4, C15.eulerPinned4, hq]
+
+/-! non-vacuity: the 2×2 block is 1 component (4/4) in the default mode; unpadded (`ignore`) only the top-left window counts
+    (1/4, what the real code returns); `wrap` sees a torus entirely covered (0); `nearest` a quarter plane (1/4 … ) -/
+example :
+    let b := C15.Bin.ofInts 2 2 [1, 1, 1, 1]
+    C15.eulerMode4 b true .constant = 4 ∧ C15.eulerMode4 b true .ignore = 1 ∧
+    C15.eulerMode4 b true .wrap = 0 ∧ C15.eulerMode4 b true .nearest = 0 ∧
+    C15.getMode b .mirror (-1) 0 = true ∧ C15.getMode (C15.Bin.ofInts 2 1 [0, 1]) .mirror (-1) 0 = true ∧
+    C15.getMode (C15.Bin.ofInts 2 1 [0, 1]) .reflect (-1) 0 = false := by decide
